@@ -35,8 +35,8 @@ RULE = ("one case = (table in lobato/kirkland/peng_high/peng_low, element of tha
 CLAUSES = ["potential-positive", "potential-decreasing", "scattering-factor-positive", "scattering-factor-decreasing",
            "projected-potential-is-line-integral", "projected-scattering-factor-is-2d-transform",
            "projected-scattering-factor-is-f-over-kappa", "scattering-factor-is-3d-transform", "all-elements-callable"]
-QUICK = dict(n=36, time=45)
-THOROUGH = dict(n=480, time=420, shards=16)
+QUICK = dict(n=34, time=45)
+THOROUGH = dict(n=1000, time=400, shards=16)
 ASSUMPTIONS = ["radii in [0.01, 6] A and spatial frequencies in [0, 6] 1/A (the range used by abTEM's integrators and grids)",
                "ionic tables (peng_ionic.json) are outside the statement: anions have negative scattering factors at small k"]
 
@@ -112,14 +112,14 @@ def line_integral(V, r):
 
 
 def _support(vp):
-    """Radius beyond which Vp(r) r^2 is below 1e-15 of its maximum."""
+    """Radius beyond which Vp(r) r^2 is below 1e-13 of its maximum."""
     r = np.geomspace(0.5, 600.0, 100)
     y = np.abs(np.asarray(vp(r), dtype=np.float64)) * r * r
-    big = np.nonzero(y > 1e-15 * y.max())[0]
+    big = np.nonzero(y > 1e-13 * y.max())[0]
     return float(min(600.0, 1.3 * r[min(big[-1] + 1, len(r) - 1)]))
 
 
-def hankel(vp, k, rmax, per_period=10, rmin=1e-7):
+def hankel(vp, k, rmax, per_period=10, rmin=1e-6):
     from scipy.special import j0
     du = min(0.02, 1.0 / (max(k, 0.02) * rmax * per_period))
     u = np.arange(np.log(rmin), np.log(rmax) + du, du)
@@ -171,8 +171,9 @@ def check(ctx, case):
     f32 = case["precision"] == "float32"
     dt = np.float32 if case["input_dtype"] == "float32" else np.float64
     # relative tolerances: float64 runs are limited by the float32 constants/casts inside the lobato and kirkland
-    # kernels (observed <= 7e-8); float32 runs by float32-rounded coefficients (observed <= 4e-6)
-    rt = 2e-4 if f32 else 2e-6
+    # kernels (observed <= 1.1e-7 over all elements); float32 runs by float32 arithmetic on coefficients of mixed sign
+    # (lobato He: 1.3e-4 at k = 0.3, the worst of all 402 table entries)
+    rt = 2e-3 if f32 else 2e-6
     with G.precision(case["precision"]):
         par = getattr(P, TABLES[table][0])(TABLES[table][1])
         ctx.expect(sym in par.parameters, "all-elements-callable", table=table, symbol=sym)
@@ -232,8 +233,8 @@ def check(ctx, case):
         f = np.asarray(F((k.astype(dt)) ** 2), dtype=np.float64)
         rmax = _support(VP)
         for ki, pi_, fi in zip(k_eval, pf, f):
-            h1 = hankel(VP, float(ki), rmax, per_period=8)
-            h2 = hankel(VP, float(ki), 1.25 * rmax, per_period=13, rmin=1e-8)
+            h1 = hankel(VP, float(ki), rmax, per_period=6)
+            h2 = hankel(VP, float(ki), 1.25 * rmax, per_period=9, rmin=1e-7)
             if abs(h1 - h2) > 0.02 * rt * abs(h2):
                 ctx.note("hankel-oracle-unconverged")
                 continue
